@@ -42,19 +42,20 @@ def removeWallet (queueLen : Nat) (keystores : List Wid) (passOk : Bool) (s : St
 
 -- ------------------------------------------------------------------ utxostore.go
 
-/-- removeRelevantUnminedCredit: every unmined credit paying one of the script hashes goes, together
-    with the unmined-input record of that very outpoint; returns the hashes of the transactions hit. -/
+/-- removeRelevantUnminedCredit: every unmined credit paying one of the script hashes goes; returns the hashes of
+    the transactions hit — the ones that created such a credit and the unmined ones that spend it (read from the
+    spent mark of the outpoint, which stays: the caller takes out of the marks the spenders it deletes) -/
 def removeRelevantUnminedCredit (s : Store) (addrs : List Addr) : Store × List TxId :=
   let hit := s.pendCred.filter (fun e => addrs.contains e.2.sh)
-  let s := { s with pendCred := s.pendCred.filter (fun e => !addrs.contains e.2.sh) }
-  let s := hit.foldl (fun s e => { s with pendIns := AMap.erase s.pendIns e.1 }) s
-  (s, (hit.map (fun e => e.1.1)).eraseDups)
+  ({ s with pendCred := s.pendCred.filter (fun e => !addrs.contains e.2.sh) },
+   (hit.map (fun e => e.1.1) ++ hit.flatMap (fun e => (AMap.get s.pendIns e.1).getD [])).eraseDups)
 
 /-- state of the credit scan of removeRelevantCredit -/
 structure Scan where
   s : Store
   count : Nat := 0
   heightOf : AMap.T TxId Nat := []
+  spenders : List TxId := []        -- unmined transactions spending a deleted credit (their spent marks)
   finish : Bool := true
   stopped : Bool := false
   failed : Bool := false            -- "debit missing": spent credit without spender key
@@ -70,13 +71,19 @@ def twoHeights (heightOf : AMap.T TxId Nat) (k : CredKey) : Bool :=
 def spender (c : Credit) : Except Unit (Option CredKey) :=
   if c.spent then (match c.spentBy with | some dk => .ok (some dk) | none => .error ()) else .ok none
 
-/-- deleteRawCredit + deleteRawUnminedInput of that outpoint -/
+/-- deleteRawCredit (the spent mark of the outpoint stays; its spenders are collected) -/
 def deleteCredit (s : Store) (k : CredKey) : Store :=
-  { s with credits := AMap.erase s.credits k, pendIns := AMap.erase s.pendIns (k.tx, k.idx) }
+  { s with credits := AMap.erase s.credits k }
 
 def dropDebit (s : Store) : Option CredKey → Store
   | some dk => { s with debits := AMap.erase s.debits dk }
   | none => s
+
+/-- the transaction that spent a deleted credit may have been recorded only because of that: it joins the
+    transactions whose tx record is examined (unless already there) -/
+def noteSpender (heightOf : AMap.T TxId Nat) : Option CredKey → AMap.T TxId Nat
+  | some dk => if (AMap.get heightOf dk.tx).isSome then heightOf else AMap.put heightOf dk.tx dk.blk.height
+  | none => heightOf
 
 /-- one iteration of the loop over the credits bucket -/
 def scanCredit (limit : Nat) (addrs : List Addr) (sc : Scan) (e : CredKey × Credit) : Scan :=
@@ -86,7 +93,8 @@ def scanCredit (limit : Nat) (addrs : List Addr) (sc : Scan) (e : CredKey × Cre
   else match spender e.2 with
     | .error _ => { sc with failed := true }
     | .ok d => { sc with s := dropDebit (deleteCredit sc.s e.1) d, count := sc.count + 1,
-                         heightOf := AMap.put sc.heightOf e.1.tx e.1.blk.height }
+                         heightOf := AMap.put (noteSpender sc.heightOf d) e.1.tx e.1.blk.height,
+                         spenders := sc.spenders ++ (AMap.get sc.s.pendIns (e.1.tx, e.1.idx)).getD [] }
 
 /-- removeRelevantCredit: iterate the credits bucket (in its stored order), at most `limit` deletions -/
 def removeRelevantCredit (limit : Nat) (s : Store) (addrs : List Addr) : Scan :=
@@ -114,7 +122,9 @@ def unminedStep (own : Own) (addrs : List Addr) (acc : Store × List TxId) (h : 
   match AMap.get acc.1.pending h with
   | none => acc
   | some tx =>
-    if removable own acc.1 addrs tx then ({ acc.1 with pending := AMap.erase acc.1.pending h }, acc.2 ++ [h])
+    if removable own acc.1 addrs tx then
+      -- deleteRawUnmined + removeUnminedInputsOf: its spent marks go with it, other spenders keep theirs
+      ({ removeUnminedInputsOf acc.1 tx with pending := AMap.erase acc.1.pending h }, acc.2 ++ [h])
     else acc
 
 /-- the unmined half of RemoveRelevantTx -/
@@ -162,7 +172,9 @@ structure StepOut where
   removedTx : List TxId
   finish : Bool
 
-/-- TxStore.RemoveRelevantTx -/
+/-- TxStore.RemoveRelevantTx: unmined credits and the unmined transactions found through them; the credit scan;
+    the unmined transactions that only SPEND a deleted credit (found through its spent mark); the tx / block
+    records nobody else needs -/
 def removeRelevantTx (limit : Nat) (c : Ctx) (s : Store) (addrs : List Addr) : Option StepOut :=
   if addrs.isEmpty then some ⟨s, [], true⟩
   else
@@ -170,9 +182,11 @@ def removeRelevantTx (limit : Nat) (c : Ctx) (s : Store) (addrs : List Addr) : O
     let (s, del1) := removeUnminedTxs c.own s addrs uh
     let sc := removeRelevantCredit limit s addrs
     if sc.failed then none
-    else match removeMinedTxs c sc.s addrs sc.heightOf with
+    else
+      let (s, del3) := removeUnminedTxs c.own sc.s addrs sc.spenders
+      match removeMinedTxs c s addrs sc.heightOf with
       | none => none
-      | some (s, del2) => some ⟨checkBlockRecords s del2, del1 ++ del2.map (·.2), sc.finish⟩
+      | some (s, del2) => some ⟨checkBlockRecords s del2, del1 ++ del3 ++ del2.map (·.2), sc.finish⟩
 
 /-- removeWalletIndexes: Remove{Unspent,Address,GameHistory}ByWalletId (prefix scans on the 42-byte wallet
     id: MW.Gen.Layout / layout_prefix_exact) and RemoveMinedBalance -/
